@@ -42,7 +42,7 @@ def filter_design_vectors(design_vectors: np.ndarray, vector: PartialDesignVecto
 def _filter_design_vectors(design_vectors: np.ndarray, vector: np.ndarray) -> MatrixSelectMask:
     """Filter matrices along the first dimension given a design vector. Returns a mask of selected matrices."""
 
-    dv_mask = np.ones((design_vectors.shape[0],), dtype=numba.types.bool_)
+    dv_mask = np.ones((design_vectors.shape[0],), dtype=np.bool_)
     for i, value in enumerate(vector):
         if value != -1:
             # Select design vectors that have the targeted value for this design variable
